@@ -1,7 +1,7 @@
 (* Entry point of the extracted model: one request s-expression in, one answer out. *)
 From Coq Require Import List NArith ZArith Bool.
 From Coq.Strings Require Import Byte.
-From Model Require Import Bytes Sx Utf8.
+From Model Require Import Bytes Sx Utf8 Frame Parser FrameParser Response Conn.
 Import ListNotations.
 Open Scope N_scope.
 
@@ -27,9 +27,83 @@ Definition cmd_utf8_decode (args : list sx) : sx :=
   | None => L [A 0; L []]
   end.
 
+(* ---------- connection scenarios ---------- *)
+Definition sx_ev (e : ev) : sx :=
+  match e with
+  | EvConnecting => L [A 0] | EvConnectFail => L [A 1] | EvConnected => L [A 2] | EvRejected => L [A 3]
+  | EvReady p d => L [A 4; sx_optB p; sx_bool d]
+  | EvPoll => L [A 5]
+  | EvText p => L [A 6; B p] | EvBinary p => L [A 7; B p] | EvPing p => L [A 8; B p] | EvPong p => L [A 9; B p]
+  | EvClosing c r => L [A 10; sx_optN c; B r] | EvClosed c r => L [A 11; sx_optN c; B r]
+  | EvUnresponsive => L [A 12]
+  | EvProtocolError cr => L [A 13; sx_bool cr]
+  | EvDisconnected g => L [A 14; sx_bool g]
+  end.
+Definition sx_exn (r : option exn) : sx :=
+  A (match r with None => 0 | Some XTypeError => 1 | Some XValueError => 2 | Some XUnavailable => 3
+              | Some XClosed => 4 | Some XClosing => 5 | Some XTransportFail => 6 end).
+Definition sx_titem (t : titem) : sx :=
+  match t with
+  | TEv e => L [A 0; sx_ev e]
+  | TWrite w => L [A 1; B w]
+  | TWriteFail w => L [A 2; B w]
+  | TWriteReq ok => L [A 3; sx_bool ok]
+  | TCall r => L [A 4; sx_exn r]
+  | TSockClose => L [A 5] | TSelClose => L [A 6] | TBlocked => L [A 7]
+  | TInflate e parts => L [A 8; A e; L (map B parts)]
+  | TDeflate e i => L [A 9; A e; B i]
+  | TWait => L [A 10]
+  end.
+
+Definition un_optZ (s : sx) : option Z := match s with L [x] => Some (un_Z x) | _ => None end.
+Definition un_cfg (s : sx) : cfg :=
+  let l := un_L s in
+  {| c_poll := un_Z (nth_sx l 0); c_ping_rate := un_Z (nth_sx l 1); c_ping_timeout := un_optZ (nth_sx l 2);
+     c_auto_pong := un_bool (nth_sx l 3); c_close_timeout := un_optZ (nth_sx l 4); c_accept := un_B (nth_sx l 5) |}.
+Definition un_step (s : sx) : step :=
+  let l := un_L s in
+  let dt := un_Z (nth_sx l 1) in
+  match un_N (nth_sx l 0) with
+  | 0 => StTimeout dt
+  | 1 => StRead dt (RData (un_B (nth_sx l 2)))
+  | 2 => StRead dt REof
+  | 3 => StRead dt ROSErr
+  | 4 => StRead dt RExc
+  | _ => StSelExc dt
+  end.
+Definition un_action (s : sx) : action :=
+  let l := un_L s in
+  match un_N (nth_sx l 0) with
+  | 0 => ACall (CSendText (un_B (nth_sx l 1)) (un_bool (nth_sx l 2)))
+  | 1 => ACall (CSendBinary (un_B (nth_sx l 1)) (un_bool (nth_sx l 2)))
+  | 2 => ACall (CSendPing (un_B (nth_sx l 1)))
+  | 3 => ACall (CSendPong (un_B (nth_sx l 1)))
+  | 4 => ACall (CClose (un_optN (nth_sx l 1)) (un_B (nth_sx l 2)))
+  | _ => AAbandon (un_bool (nth_sx l 1))
+  end.
+(* a finite strategy: (event index, actions) pairs; the index counts the events yielded so far, from 0 *)
+Definition count_events (tr : list titem) : nat :=
+  length (filter (fun t => match t with TEv _ => true | _ => false end) tr).
+Definition table_strategy (tbl : list (nat * list action)) : strategy :=
+  fun tr => let i := (count_events tr - 1)%nat in
+            match find (fun p => Nat.eqb (fst p) i) tbl with Some (_, acts) => acts | None => [] end.
+Definition un_wres (s : sx) : wres := match un_N s with 0 => WOk | 1 => WOSErr | _ => WExc end.
+
+(* (10 cfg connect steps app keys wfaults ztape ctape) -> trace, oldest first *)
+Definition cmd_run (args : list sx) : sx :=
+  let cf := un_cfg (nth_sx args 0) in
+  let cn := match un_N (nth_sx args 1) with 0 => CnOk | 1 => CnSocketFail | _ => CnExc end in
+  let steps := map un_step (un_L (nth_sx args 2)) in
+  let tbl := map (fun s => (un_nat (nth_sx (un_L s) 0), map un_action (un_L (nth_sx (un_L s) 1)))) (un_L (nth_sx args 3)) in
+  let c0 := init (map un_B (un_L (nth_sx args 4))) (map un_wres (un_L (nth_sx args 5)))
+                 (map un_optB (un_L (nth_sx args 6))) (map un_B (un_L (nth_sx args 7))) in
+  let c := run cf (table_strategy tbl) c0 cn steps in
+  L (map sx_titem (rev (k_tr c))).
+
 Definition run_sx (req : sx) : sx :=
   match req with
   | L (A 1 :: args) => cmd_utf8 args
   | L (A 2 :: args) => cmd_utf8_decode args
+  | L (A 10 :: args) => cmd_run args
   | _ => L [A 998]
   end.
